@@ -37,6 +37,11 @@ def gen_scenario(rng, d):
                                                                                       "./f1.data", "sub/../f1.data"]
     os.makedirs(os.path.join(d, "sub"), exist_ok=True)
     os.makedirs(os.path.join(d, "work"), exist_ok=True)
+    if not rel:
+        # ... and a symbolic link to one of the files
+        open(os.path.join(d, "f1.data"), "a").close()
+        os.symlink("f1.data", os.path.join(d, "l1.data"))
+        files.append("l1.data")
     share_suite = rng.random() < 0.6
     falsy = rng.random() < 0.4
     falsy_var = rng.choice([0, 0.0, False])
@@ -57,7 +62,7 @@ def gen_scenario(rng, d):
         if f != "default":
             e["data_file"] = f if rel else os.path.join(d, f)
         # the harness names a file by its normalised spelling (what the file system would open)
-        exp_file["X%d" % x] = os.path.join(d, "default.data") if f == "default" else (os.path.normpath(f) if rel else os.path.normpath(os.path.join(d, f)))
+        exp_file["X%d" % x] = os.path.join(d, "default.data") if f == "default" else (os.path.normpath(f) if rel else os.path.realpath(os.path.join(d, f)))
         exps["X%d" % x] = e
     warmup = rng.choice([0, 0, 1, 3])
     raw = {"executors": {"E": {"path": "/x", "executable": "exe"}}, "benchmark_suites": suites, "experiments": exps,
